@@ -4,6 +4,7 @@ import (
 	"fmt"
 	"go/types"
 	"golang.org/x/tools/go/ssa"
+	"sort"
 	"strings"
 )
 
@@ -47,7 +48,7 @@ func (e *Engine) absFieldOf(baseT types.Type, name string) (string, string, type
 			// abstract fields of the dynamic value behind any interface view (keyed by its identity)
 			if af, ok := e.P.absFields["interface"][name]; ok {
 				ft := e.P.resolveType(af.FType, "", nil)
-				return "Abs_iface_" + mangle(name), fmt.Sprintf("(Array Int %s)", e.sortOf(ft)), ft, true
+				return e.noteSort("Abs_iface_"+mangle(name), fmt.Sprintf("(Array Int %s)", e.sortOf(ft))), fmt.Sprintf("(Array Int %s)", e.sortOf(ft)), ft, true
 			}
 		}
 	}
@@ -77,7 +78,17 @@ func (e *Engine) absFieldOf(baseT types.Type, name string) (string, string, type
 	}
 	ft := e.P.resolveTypeBound(af.FType, pkg, bind)
 	heap := fmt.Sprintf("Abs_%s_%s", shortTypeName(t), mangle(name))
-	return heap, fmt.Sprintf("(Array Int %s)", e.sortOf(ft)), ft, true
+	return e.noteSort(heap, fmt.Sprintf("(Array Int %s)", e.sortOf(ft))), fmt.Sprintf("(Array Int %s)", e.sortOf(ft)), ft, true
+}
+
+// noteSort remembers the sort of a heap map by name, so that a map which has not been read yet
+// can still be havoc'd (a later first read must not see the entry version).
+func (e *Engine) noteSort(name, sort string) string {
+	if e.allSorts == nil {
+		e.allSorts = map[string]string{}
+	}
+	e.allSorts[name] = sort
+	return name
 }
 
 func (p *Prog) resolveTypeBound(s, pkg string, bind map[string]types.Type) types.Type {
@@ -513,4 +524,36 @@ func (e *Engine) globalAddr(g *ssa.Global) Val {
 		}
 	}
 	return term(name, g.Type())
+}
+
+// forgetSet: `opt forget=label,...` of the unit under verification. Assumptions carrying one of these
+// labels (own requires, ensures of callees) are left out of the path condition. Dropping assumptions
+// is always sound; it keeps quantified facts that a proof does not need away from the solver.
+func (e *Engine) forgetSet() map[string]bool {
+	m := map[string]bool{}
+	if e.unit == nil || e.unit.C == nil {
+		return m
+	}
+	for _, l := range strings.Split(e.unit.C.Opts["forget"], ",") {
+		if l = strings.TrimSpace(l); l != "" {
+			m[l] = true
+		}
+	}
+	return m
+}
+
+// variantsOf: the additional contracts "Key@name" of the function whose main contract is c.
+func (p *Prog) variantsOf(c *Contract) []*Contract {
+	if c == nil || c.Kind != "func" || strings.Contains(c.Key, "@") {
+		return nil
+	}
+	var vs []*Contract
+	pre := c.Pkg + "::" + c.Key + "@"
+	for k, v := range p.contracts {
+		if strings.HasPrefix(k, pre) {
+			vs = append(vs, v)
+		}
+	}
+	sort.Slice(vs, func(i, j int) bool { return vs[i].Key < vs[j].Key })
+	return vs
 }
